@@ -21,7 +21,7 @@ ASSUME = [
 INVS = {
     "C06": ["C06_AnsweredWhenAvailable", "C06_AnswerClass", "C06_HintExact"],
     "C07": ["C07_CloseReleases"],
-    "C08": ["C08_Snapshot", "C08_NoPanic"],
+    "C08": ["C08_Snapshot", "C08_NoPanic", "C08_ViewsConsistent"],
 }
 
 
@@ -125,7 +125,32 @@ def run(pid, tier, replay):
                     v.violation("%s on the real Muxer, schedule %s (%s)" % (inv, sig, d), rp, signature=inv + ":" + sig)
                 else:
                     unconfirmed.append({"invariant": inv, "schedule": sig})
+        if pid == "C07":
+            # Close after a write history in every variant / storage mode (sequential muxer harness): directory empty
+            import random
+            from props import muxer, muxgen
+            rnd = random.Random(vlib.seed() * 7919 + 7)
+            scs = muxgen.general(rnd, 96 if tier == "quick" else 900, (20, 120))
+            for sc in scs:
+                sc["cfg"]["disk"] = True
+            tr = muxer.replay_sharded(binary, scs, work, "dirs", ["-noemit"])
+            tc = vlib.validate_trace_parallel("MuxTrace", "Trace_mux_C07.cfg", tr, pid, tag="dirs")
+            if tc.incomplete:
+                raise vlib.Inconclusive("trace not consumed: " + tc.incomplete[0])
+            total_lines += tc.lines
+            total_traces += tc.traces
+            states += tc.states
+            for inv, rp, d in tc.failures:
+                sig, what = muxer.signature(rp)
+                v.violation("%s: %s (%s)" % (inv, what, d), rp, signature="dir:" + sig)
+        race_info = {}
+        if pid == "C08":
+            race_info = race_part(pid, tier, v, work, scripts)
+            total_lines += race_info.get("stress_lines", 0)
+            total_traces += race_info.get("stress_traces", 0)
+            states += race_info.get("stress_states", 0)
         cov = {
+            "race_detector": race_info,
             "states": d1.distinct + states, "transitions": d1.generated + total_lines,
             "traces_validated_against_impl": total_traces, "trace_lines": total_lines,
             "design": {"MC_serve.cfg": [d1.distinct, d1.generated], "liveness": "CloseUnblocks under WF of handler evaluations",
@@ -200,3 +225,62 @@ def confirm(binary, rp, cfg, work, disk, n=10):
         raise vlib.Inconclusive("confirmation replay failed: " + out[-1000:])
     r, _ = vlib.validate_trace("MCMuxerServeTrace", cfg, tp)
     return r.kind == "invariant"
+
+
+import re
+
+
+def racing_pairs(out):
+    """(function, function) pairs of the top frames of the two stacks of every race report."""
+    pairs = {}
+    for blk in out.split("WARNING: DATA RACE")[1:]:
+        m = re.search(r"(?:Write|Read) at .*?\n  ([^\n]+)\(\)\n.*?Previous (?:write|read) at .*?\n  ([^\n]+)\(\)", blk, re.S)
+        if m:
+            a, b = sorted([m.group(1).strip(), m.group(2).strip()])
+            pairs.setdefault((a, b), blk[:3000])
+    return pairs
+
+
+def race_part(pid, tier, v, work, scripts):
+    """Memory-level half of C08: the same gated schedules and a free-running stress run under the Go race detector;
+    the playlist views received during the stress run are judged by TLC (StressTrace.tla)."""
+    rb = vlib.build_harness(race=True)
+    info = {}
+    outs = []
+    n = 40 if tier == "quick" else 400
+    for disk in (False, True):
+        sp = os.path.join(work, "race_s%d.json" % disk)
+        tp = os.path.join(work, "race_t%d.ndjson" % disk)
+        with open(sp, "w") as f:
+            json.dump(scripts[:n], f)
+        rc, out, dt = vlib.drive(rb, ["serve-replay", "-scripts", sp, "-out", tp, "-nh", "3"] + (["-disk"] if disk else []),
+                                 timeout=3000, env_extra={"GORACE": "halt_on_error=0"})
+        outs.append(out)
+        if rc not in (0, 66) and "DATA RACE" not in out:
+            raise vlib.Inconclusive("race-enabled serve-replay failed (rc=%d): %s" % (rc, out[-2000:]))
+    st = os.path.join(work, "stress.ndjson")
+    secs = "1.2" if tier == "quick" else "8"
+    rc, out, dt = vlib.drive(rb, ["mux-stress", "-out", st, "-secs", secs, "-readers", "8" if tier == "quick" else "24",
+                                  "-seed", str(vlib.seed())], timeout=3000, env_extra={"GORACE": "halt_on_error=0"})
+    outs.append(out)
+    if rc not in (0, 66) and "DATA RACE" not in out:
+        raise vlib.Inconclusive("race-enabled mux-stress failed (rc=%d): %s" % (rc, out[-2000:]))
+    pairs = {}
+    for o in outs:
+        pairs.update(racing_pairs(o))
+    os.makedirs(vlib.REPLAYS, exist_ok=True)
+    for (a, b), blk in pairs.items():
+        rp = os.path.join(vlib.REPLAYS, "%s-race-%s.txt" % (pid, re.sub(r"[^A-Za-z0-9]+", "_", a + "__" + b)[:120]))
+        with open(rp, "w") as f:
+            f.write("WARNING: DATA RACE" + blk)
+        v.violation("data race between %s and %s" % (a, b), rp, signature="race:%s|%s" % (a, b))
+    info["race_reports"] = len(pairs)
+    info["gated_schedules_under_race"] = 2 * min(n, len(scripts))
+    if os.path.exists(st):
+        tc = vlib.validate_trace_parallel("StressTrace", "Trace_stress.cfg", st, pid, tag="stress")
+        if tc.incomplete:
+            raise vlib.Inconclusive("stress trace not consumed: " + tc.incomplete[0])
+        for inv, rp, d in tc.failures:
+            v.violation("%s on a free-running stress run (%s)" % (inv, d), rp, signature="stress:" + inv)
+        info.update({"stress_lines": tc.lines, "stress_traces": tc.traces, "stress_states": tc.states})
+    return info
